@@ -64,7 +64,7 @@ func TestVerifC24(t *testing.T) {
 '''
 
 # ---- inline sites (a * b / c outside the named helpers): a recipe per enclosing function drives the real code ----
-# Each recipe: imports, body (inside TestVerifC24; %(coq)s = generated site name, %(where)s = file:line), toplevel decls.
+# Each recipe: imports, body (inside TestVerifC24; %(sitefn)s = Go func giving the Coq site term, %(where)s = file:line), toplevel decls.
 
 RECIPE_PLAYBACK_READHEADER = dict(
     imports=['"bytes"', '"encoding/binary"', '"github.com/bluenviron/mediacommon/v2/pkg/formats/fmp4"',
@@ -123,7 +123,7 @@ RECIPE_PLAYBACK_READHEADER = dict(
 			if a == mx || c == mx || c == 1 {
 				class += " (boundary)"
 			}
-			out.Case(cqApp("KInl", "%(coq)s_site", cqZ(int64(a)), "1000000000", cqZ(int64(c)), cqZ(int64(d))),
+			out.Case(cqApp("KInl", %(sitefn)s(int64(d)), cqZ(int64(a)), "1000000000", cqZ(int64(c)), cqZ(int64(d))),
 				map[string]any{"site": "%(where)s", "a": a, "b": 1000000000, "c": c, "result": int64(d)}, class, a != 0)
 		}
 	}
@@ -212,7 +212,7 @@ RECIPE_RTMP_FROMSTREAM = dict(
 						if !ok {
 							t.Fatalf("C24: DTS %%v is not the conversion of a tick count", dts[k])
 						}
-						out.Case(cqApp("KInl", "%(coq)s_site", "1152", "90000", cqZ(cb.rate), cqZ(cur-prev)),
+						out.Case(cqApp("KInl", %(sitefn)s(cur-prev), "1152", "90000", cqZ(cb.rate), cqZ(cur-prev)),
 							map[string]any{"site": "%(where)s", "a": 1152, "b": 90000, "c": cb.rate, "result": cur - prev,
 								"unit_pts": p0, "frame": k, "track": cb.media},
 							"inline int64(samples)*int64(clockRate)/int64(sampleRate)", true)
@@ -274,16 +274,29 @@ func (c *vC24Conn) wait(n int, rd *stream.Reader) []time.Duration {
 }
 ''')
 
-# enclosing function -> recipe; a site without a recipe is covered by the proof over its translation only
-INLINE_RECIPES = {
-    ("internal/playback", "segmentFMP4ReadHeader"): RECIPE_PLAYBACK_READHEADER,
-    ("internal/protocols/rtmp", "FromStream"): RECIPE_RTMP_FROMSTREAM,
-}
-INLINE_NOT_DRIVEN = {
-    ("internal/recorder", "(*formatFMP4).initialize"):
-        "the value only feeds the local `dt`, which is never read (the MPEG-1 audio sample is written with dts: u.PTS + u.PTS): "
-        "nothing observable depends on it",
-}
+# (package, enclosing function, regexp on the expression) -> recipe. A recipe ALWAYS runs: when the translator no longer
+# finds (or cannot translate) its site, the observed values are still judged against exact arithmetic (no model), so a
+# rewrite that loses the a*b/c shape and the exactness is caught, while a harmless refactor stays silent.
+# A site without a recipe is covered by the proof over its translation only.
+INLINE_RECIPES = [
+    dict(pkg="internal/playback", func="segmentFMP4ReadHeader", expr=r"mvhd", recipe=RECIPE_PLAYBACK_READHEADER,
+         what="mvhd duration * time.Second / timescale in segmentFMP4ReadHeader"),
+    dict(pkg="internal/protocols/rtmp", func="FromStream", expr=r"SampleCount", recipe=RECIPE_RTMP_FROMSTREAM,
+         what="MPEG-1 audio frame advance (samples * clock rate / sample rate) in FromStream"),
+]
+INLINE_NOT_DRIVEN = [
+    dict(pkg="internal/recorder", func="(*formatFMP4).initialize", expr=r"SampleCount",
+         why="the value only feeds the local `dt`, which is never read (the MPEG-1 audio sample is written with "
+             "dts: u.PTS + u.PTS): nothing observable depends on it"),
+]
+
+
+def _match(table, s):
+    import re
+    for e in table:
+        if e["pkg"] == s["Pkg"] and e["func"] == s["Func"] and re.search(e["expr"], s["Expr"]):
+            return e
+    return None
 
 # range fact (key of tools/gen/muldiv_inline rangeFacts) -> Go that re-validates it on the real library, emitting KFact
 FACT_MPEG1 = dict(
@@ -380,19 +393,43 @@ class C24(Prop):
             "durationToTimestamp/durationGoToMp4/durationMp4ToGo in /repo/internal and prints its body as Gallina with "
             "wrap64 after each operation; a driver generated per package calls each real helper on boundary inputs "
             "(0, +-1, +-2^63, multiples of d +-1, overflow edge, random 64-bit) x rates (1..2^32) and Coq compares with "
-            "the translated definition and with exact arithmetic. Non-trivial = v != 0; distinct = distinct inputs")
+            "the translated definition and with exact arithmetic. Inline sites: translator tools/gen/muldiv_inline (go/ast + "
+            "go/types) finds every integer a*b/c outside those helpers with a time unit / clock rate / ...Rate / ...TimeScale "
+            "operand and prints it with the wrap of every conversion and operation plus the operand ranges; recipes drive the "
+            "enclosing real function (segmentFMP4ReadHeader on init segments with patched mvhd: corner grid + random uint32 "
+            "pairs; rtmp FromStream on a real stream with a recording gortmplib.Conn: every sample rate RTMP can carry x unit "
+            "PTS boundary values, tick advance recovered exactly from consecutive message timestamps); the library range "
+            "facts used by the theorem are re-measured over all 2^24 MPEG audio header prefixes (KFact cases). "
+            "Non-trivial = v != 0 (a != 0 for inline sites); distinct = distinct inputs")
     trusted_base = ["Coq 8.16.1 kernel + VM", "translator tools/gen/muldiv (go/ast; fails loudly outside the straight-line "
                     "integer fragment; validated on every run by running the real helpers against the translation)",
+                    "translator tools/gen/muldiv_inline (go/ast + go/types via golang.org/x/tools/go/packages v0.50.0 from the module "
+                    "cache; fails loudly on an a*b/c it cannot type or translate; validated by the correspondence run on the "
+                    "driven sites)",
+                    "range facts of tools/gen/muldiv_inline (mpeg1audio.FrameHeader.SampleCount() in 1..1152, .SampleRate in "
+                    "16000..48000 after a successful Unmarshal, format.MPEG1Audio.ClockRate() = 90000): re-validated on the real "
+                    "libraries by every run (KFact cases); that the two sites only read a header after a successful Unmarshal is "
+                    "by inspection",
                     "generated in-package drivers"]
     assumptions = ["Go int and time.Duration are 64-bit two's complement (wrap64)",
-                   "inline scaling expressions that are not one of the named helpers (e.g. mvhd duration in "
-                   "segmentFMP4ReadHeader: uint32 * time.Second / uint32, which cannot overflow) are not translated"]
+                   "inline sites are recognised by shape: an integer `x * y / z` (left operand of `/` is a `*`) with a time "
+                   "unit, a literal clock rate or a ...Rate / ...TimeScale name among its operands; a scaling split over "
+                   "several statements, done in floating point (playback/on_get.go: secs * float64(time.Second)) or by a "
+                   "single operation (recorder/format_fmp4_segment.go: d / time.Millisecond) is listed in the translator "
+                   "notes but not translated",
+                   "recorder/format_fmp4.go `dt += SampleCount * time.Second / SampleRate` is proved over its translation "
+                   "but cannot be driven: `dt` is never read"]
     manifest = dict(
         text="The helper bodies are translated from the current Go sources into Gallina on every run; each translated "
              "site must be convertible to the shape for which `muldiv_exact` is proved for ALL int64 v and all rates in "
              "1..2^32 (exact truncated quotient whenever representable). An edited helper therefore breaks a proof "
-             "obligation; the generated drivers then look for the concrete failing input on the real function.",
-        note="Trusted: Coq kernel+VM, the go/ast translator (validated by the correspondence run), 64-bit int. Sites on "
+             "obligation; the generated drivers then look for the concrete failing input on the real function. The inline "
+             "`a * b / c` scaling expressions outside the helpers (mvhd duration in playback, MPEG-1 audio frame advance in "
+             "the RTMP writer and in the fMP4 recorder) are translated the same way, each with the ranges of its operands, "
+             "and proved exact for ALL operands in those ranges; with the Go types' ranges alone the last two are proved to "
+             "overflow (`C24_inline_typeonly_refuted`), so the library range facts they rest on are re-measured on every run.",
+        note="Trusted: Coq kernel+VM, the go/ast translators (validated by the correspondence run), 64-bit int, the recognition "
+             "of inline sites by shape (x * y / z with a rate-like operand). Sites on "
              "platforms excluded by build tags (rpicamera arm) are translated but cannot be executed here.",
         technique="translator (Go -> Gallina) + Coq proof over Z with explicit wrap64; correspondence by vm_compute")
 
@@ -429,11 +466,11 @@ class C24(Prop):
             raise RuntimeError("inline translator failed: " + o2[-2000:])
         notes = ["%s:%d %s -> %s (%s)" % (s["File"], s["Line"], s["Name"], s.get("CoqName") or "UNTRANSLATABLE", s["Kind"]) for s in self.sites]
         for s in self.inline_sites:
-            key = (s["Pkg"], s["Func"])
-            how = "driven through " + s["Func"] if key in INLINE_RECIPES else \
-                "NOT DRIVEN (proof over the translation only): " + INLINE_NOT_DRIVEN.get(key, "no driver recipe for " + s["Func"])
+            nd = _match(INLINE_NOT_DRIVEN, s)
+            how = "driven through " + s["Func"] if _match(INLINE_RECIPES, s) else \
+                "NOT DRIVEN (proof over the translation only): " + (nd["why"] if nd else "no driver recipe for " + s["Func"])
             notes.append("inline %s:%d %s : %s -> %s [%s]; %s" % (
-                s["File"], s["Line"], s["Expr"], s["ExprType"], s["CoqName"],
+                s["File"], s["Line"], s["Expr"], s["ExprType"], s["CoqName"] or "UNTRANSLATABLE",
                 ", ".join("%s in [%s, %s]%s" % ("abc"[i], o["Lo"], o["Hi"], " (range fact)" if o["Fact"] else "") for i, o in enumerate(s["Ops"])), how))
         for o in inl.get("ignored") or []:
             notes.append("a*b/c without a time unit / clock rate / ...Rate / ...TimeScale operand (not a timestamp scaling, left alone): "
@@ -456,10 +493,14 @@ class C24(Prop):
             bypkg.setdefault(s["Pkg"], []).append(s)
         inl_bypkg = {}
         facts = {}
+        for rc_ in INLINE_RECIPES:
+            if not os.path.isdir(os.path.join(vlib.REPO, rc_["pkg"])):
+                continue
+            found = [s for s in getattr(self, "inline_sites", []) if _match([rc_], s) and s.get("CoqName")]
+            site = found[0] if found else None
+            inl_bypkg.setdefault(rc_["pkg"], []).append((rc_, site))
+            bypkg.setdefault(rc_["pkg"], [])
         for s in getattr(self, "inline_sites", []):
-            if (s["Pkg"], s["Func"]) in INLINE_RECIPES and os.path.isdir(os.path.join(vlib.REPO, s["Pkg"])):
-                inl_bypkg.setdefault(s["Pkg"], []).append(s)
-                bypkg.setdefault(s["Pkg"], [])
             for o in s["Ops"]:
                 if o["Fact"]:
                     if o["Fact"] not in FACTS:
@@ -475,10 +516,16 @@ class C24(Prop):
             uses_time = any("time.Duration" in t for s in bypkg[pkg] for t in s["ParamTypes"])
             imports = set(['"time"'] if uses_time else [])
             inline_src, toplevel = "", ""
-            for s in inl_bypkg.get(pkg, []):
-                rec = INLINE_RECIPES[(s["Pkg"], s["Func"])]
+            for rc_, s in inl_bypkg.get(pkg, []):
+                rec = rc_["recipe"]
                 imports.update(rec["imports"])
-                inline_src += rec["body"] % {"coq": s["CoqName"], "where": "%s:%d %s" % (s["File"], s["Line"], s["Expr"])}
+                if s:
+                    sitefn = '(func(int64) string { return "%s_site" })' % s["CoqName"]
+                    where = ("%s:%d %s" % (s["File"], s["Line"], s["Expr"])).replace('"', "'")
+                else:   # no translated site: judged against exact arithmetic only
+                    sitefn = ('(func(o int64) string { return "(mk_inline_site (fun _ _ _ => " + cqZ(o) + ") (0, 0) (0, 0) (0, 0) rng_int64)" })')
+                    where = "%s: %s (no site translated here on this run)" % (rc_["pkg"], rc_["what"])
+                inline_src += rec["body"] % {"sitefn": sitefn, "where": where}
                 if rec["toplevel"] not in toplevel:
                     toplevel += rec["toplevel"]
             if facts and pkg == FACTS_PKG:
